@@ -19,6 +19,7 @@ import WowSrp.Model.World
 import WowSrp.Model.MatrixCard
 import WowSrp.Lemmas.Layout
 namespace WowSrp
+open WowSrp.Layout
 
 /-! ### salts and challenges: the output is the draw -/
 
